@@ -23,7 +23,9 @@
     [emits_bounded w w']: [w' = emit w new] for some [new] with [bounded_rec (w_max w)] for all of [new];
     [bounded_rec_full m r] (Proofs/SafetyExtraProofs.v): [bounded_rec m r], and if [r] is an R record then
       0 <= r_volume <= m and r_multi_disp * r_volume <= m (the volume aspirated for one round of
-      multi-dispenses fits into max_volume);
+      multi-dispenses fits into max_volume); it says nothing about an [RCmd] record (EVOware script command):
+      the volumes of a script command are checked against max_volume by [evo_command] (C13: C13_parse_fields /
+      C13_agree_text relate the slots of the command to the checked volumes);
     [emits_full w w']: as [emits_bounded] with [bounded_rec_full];
     [quiet r]: [r] is not an A, D or R record;
     [wl_op], [op_ok], [distribute_dev_ok], [dst_positions_distinct]: as in C01 (the Fluent restriction of
